@@ -55,6 +55,24 @@ void drv_c08_powm(int tier, unsigned long seed, const char *extra) {
     rec_quiesce();
   }
 }
+/* exponent 1 (and other tiny exponents) with a negative base of FEWER limbs than the modulus whose reduction |m| - |b| loses
+   several limbs: m = B^(n-1) + c, b = -(B^(n-1) - d) */
+void drv_c08_e1(int tier, unsigned long seed, const char *extra) {
+  shard_t sh = shard_parse(extra); long x = 0; int n, c, d, j;
+  for (n = 2; n <= (sh.pure ? 3 : 7); n++) for (c = 0; c < 3; c++) {
+    x++; if (!MINE(sh, x)) continue;
+    rec_reset("c08_e1", x, seed);
+    for (j = 0; j < 5; j++) callf("mpz_init", j);
+    callf("drv_setz", 2, "1"); callf("mpz_mul_2exp", 2, 2, (uint64_t)(64 * (n - 1))); callf("mpz_add_ui", 2, 2, (uint64_t)(c == 0 ? 0 : c == 1 ? 1 : 5));
+    for (d = 0; d < 4; d++) { int e;
+      callf("drv_setz", 0, "1"); callf("mpz_mul_2exp", 0, 0, (uint64_t)(64 * (n - 1))); callf("mpz_sub_ui", 0, 0, (uint64_t)(d == 0 ? 1 : d == 1 ? 2 : d == 2 ? 0xffffffffUL : rnd64() | 1)); callf("mpz_neg", 0, 0);
+      for (e = 1; e <= 3; e++) { callf("mpz_set_ui", 1, (uint64_t)e); callf("mpz_realloc2", 3, (uint64_t)1); callf("mpz_powm", 3, 0, 1, 2); callf("mpz_realloc2", 3, (uint64_t)1); callf("mpz_powm_ui", 3, 0, (uint64_t)e, 2);
+        callf("mpz_neg", 2, 2); callf("mpz_powm", 3, 0, 1, 2); callf("mpz_neg", 2, 2); }
+      callf("mpz_neg", 0, 0); callf("mpz_set_ui", 1, (uint64_t)1); callf("mpz_powm", 3, 0, 1, 2); }
+    for (j = 0; j < 5; j++) callf("mpz_clear", j);
+    rec_quiesce();
+  }
+}
 void drv_c08_pow(int tier, unsigned long seed, const char *extra) {
   shard_t sh = shard_parse(extra); long x = 0; int lb, e, s, j;
   for (lb = 0; lb <= (sh.pure ? 2 : 6); lb++) for (s = 0; s < 2; s++) {
